@@ -104,25 +104,59 @@ def search(rep: C.Report, tier: str, broken):
         f = cls(bUseAdaptiveInterpolation=False, initialInterpolationPointCount=10, returnValueCount=k)
         f.badpts = []
         lo_, hi_ = r.randint(-4, 0), r.randint(1, 5)
-        npt = r.choice((5, 9, 17))
+        npt = r.choice((9, 9, 17))
         ml, mu = r.choice(modes), r.choice(modes)
-        f.badpts = [lo_ + (hi_ - lo_) * r.randint(1, npt - 2) / (npt - 1)] if r.random() < 0.3 else []
-        f.newInterpolationTable(float(lo_), float(hi_), npt)
-        f.setExtrapolationType(ml, mu)
+        # non-finite values anywhere in the table, INCLUDING its outermost points (the function may only exist on a sub-interval)
+        u_ = r.random()
+        if u_ < 0.25:
+            f.badpts = [lo_ + (hi_ - lo_) * r.randint(1, npt - 2) / (npt - 1)]
+        elif u_ < 0.45:
+            nlo, nhi = r.randint(0, 2), r.randint(0, 2)
+            f.badpts = [lo_ + (hi_ - lo_) * i / (npt - 1) for i in list(range(nlo)) + list(range(npt - nhi, npt))]
+        else:
+            f.badpts = []
+        # the modes may be chosen before or after the table is built (a later mode change rebuilds the table)
+        modes_first = r.random() < 0.5
+        if modes_first:
+            f.setExtrapolationType(ml, mu)
+        ngood = npt - len(set(f.badpts))
+        try:
+            f.newInterpolationTable(float(lo_), float(hi_), npt)
+        except ValueError:
+            if ngood >= 2:
+                rep.violation("building a table with at least two finite-valued points raised ValueError",
+                              {"k": k, "table": [lo_, hi_, npt], "bad": f.badpts}, finding_key="C18:scalar-drop-all" if k == 1 else "C18:table-raises")
+            continue
+        if not modes_first:
+            f.setExtrapolationType(ml, mu)
         if r.random() < 0.4:
             f.extendInterpolationTable(lo_ - r.randint(0, 3), hi_ + r.randint(0, 3), r.choice((0, 2, 4)), r.choice((0, 2, 4)))
         info = {"k": k, "coef": coef[:k], "modes": [ml.name, mu.name], "table": [lo_, hi_, npt], "bad": f.badpts}
         pts = np.asarray(f._interpolationPoints)
         # invariant: strictly increasing, bad points left out individually (and only those)
-        if not np.all(np.diff(pts) > 0) or any(b in pts for b in f.badpts) or (f.badpts and len(pts) < npt - 1):
+        good = [lo_ + (hi_ - lo_) * i / (npt - 1) for i in range(npt)]
+        good = [g_ for g_ in good if g_ not in f.badpts]
+        rng_ok = (not f.hasInterpolation()) or (f.interpolationRangeMin() == min(pts) and f.interpolationRangeMax() == max(pts))
+        if not np.all(np.diff(pts) > 0) or any(b in pts for b in f.badpts) or not all(g_ in pts for g_ in good) or not rng_ok:
             rep.violation("table abscissae not strictly increasing / non-finite points not dropped individually",
                           dict(info, points=pts.tolist()), finding_key="C18:scalar-drop-all" if k == 1 else "C18:invariant")
+            continue
+        if len(pts) < 5:
+            rep.count("tables with < 5 points (cubic not reproduced exactly: value checks skipped)")
             continue
         rmin, rmax = f.interpolationRangeMin(), f.interpolationRangeMax()
         shp = r.choice(shapes)
         m = 1 if shp == () else (3 if shp in ((3,), "list") else 6)
-        xs = np.array([r.choice((r.uniform(rmin, rmax), rmin - r.uniform(0.1, 2), rmax + r.uniform(0.1, 2), rmin, rmax)) for _ in range(m)])
+        if f.badpts:
+            shp = "list" if shp != () else ()        # the number of usable test abscissae may shrink below
+        xs = np.array([r.choice((r.uniform(rmin, rmax), rmin - r.uniform(0.1, 2), rmax + r.uniform(0.1, 2), rmin, rmax,
+                                 rmin - r.uniform(0.001, 0.2), rmax + r.uniform(0.001, 0.2))) for _ in range(m)])
+        xs = np.array([x_ for x_ in xs if x_ not in f.badpts] or [0.5 * (rmin + rmax)])
+        m = len(xs)
         xs = np.array([x for x in xs])
+        if shp == ():
+            xs = xs[:1]
+            m = 1
         x = float(xs[0]) if shp == () else (xs.tolist() if shp == "list" else xs.reshape(shp))
         truth = lambda z: (np.stack([c[0] + c[1] * z + c[2] * z ** 2 + c[3] * z ** 3 for c in coef[:k]], axis=-1)
                            if k > 1 else coef[0][0] + coef[0][1] * z + coef[0][2] * z ** 2 + coef[0][3] * z ** 3)  # noqa: E731
